@@ -167,10 +167,19 @@ struct WObs {
   bool operator!=(const WObs& o) const { return !(*this == o); }
 };
 static long nwall = 0;
+static bool g_wall_raw = false;   // raw: the offset selected by TimeZone::getOffsetDateTime(), before ZonedDateTime normalises it
 static WObs resolve(const TimeZone& tz, long w, std::string* normwhy) {
   nwall++;
   Civil c = civil_from_days(floordiv(w, 86400));
   long sod = floormod(w, 86400);
+  if (g_wall_raw) {
+    LocalDateTime ldt = LocalDateTime::forComponents((int16_t) c.y, (uint8_t) c.m, (uint8_t) c.d, (uint8_t) (sod / 3600), (uint8_t) ((sod % 3600) / 60), (uint8_t) (sod % 60));
+    OffsetDateTime odt = tz.getOffsetDateTime(ldt);
+    WObs r;
+    if (odt.isError()) { r.shift = 0; r.off = 0; r.err = 1; return r; }
+    r.off = odt.timeOffset().toMinutes() * 60; r.shift = (long) odt.toEpochSeconds() - w; r.err = 0;   // the instant selected; the offset is already normalised
+    return r;
+  }
   ZonedDateTime z = ZonedDateTime::forComponents((int16_t) c.y, (uint8_t) c.m, (uint8_t) c.d,
       (uint8_t) (sod / 3600), (uint8_t) ((sod % 3600) / 60), (uint8_t) (sod % 60), tz);
   WObs o;
@@ -299,6 +308,7 @@ int main(int argc, char** argv) {
     return scan<extended::ZoneInfo, ExtendedZoneProcessor, ExtendedZone>(zonedbx::kZoneRegistry, zonedbx::kZoneRegistrySize, i0, i1, grid, t0, t1, fs);
   }
   if (cmd == "bufs" && argc >= 5) return bufs_extended(atoi(argv[3]), atoi(argv[4]));
+  if (cmd == "wallraw") { g_wall_raw = true; cmd = "wall"; }
   if (cmd == "wall") {
     if (basic) return wall<basic::ZoneInfo, BasicZoneProcessor, BasicZone>(zonedb::kZoneRegistry, zonedb::kZoneRegistrySize);
     return wall<extended::ZoneInfo, ExtendedZoneProcessor, ExtendedZone>(zonedbx::kZoneRegistry, zonedbx::kZoneRegistrySize);
